@@ -7,6 +7,8 @@ if [ -n "$(git status --porcelain --untracked-files=no)" ]; then echo "repo not 
 git apply "$D/patch.diff" || { echo "patch does not apply"; exit 2; }
 trap 'git -C /repo checkout -- . ' EXIT
 for P in "$@"; do
-  python3 /verif/check.py $P --no-evidence > /verif/logs/seeded_$(basename $(dirname $D))_$(basename $D)_$P.log 2>&1
-  echo "$(basename $(dirname $D))/$(basename $D) check=$P exit=$?"
+  name="$(basename $(dirname $D))_$(basename $D)"
+  python3 /verif/check.py $P --no-evidence > /verif/logs/seeded_${name}_$P.log 2>&1
+  rc=$?
+  echo "$name check=$P exit=$rc $(grep -c '^VIOLATION' /verif/logs/seeded_${name}_$P.log) violation line(s)"
 done
